@@ -77,7 +77,8 @@ CHECKS = {
         text="Each base ledger is re-run under 6 line permutations and 2 fill-splittings (same total quantity, "
              "consideration and fees; adjacent or separated fills) and the reports compared leg by leg; the real CLI "
              "is run on 1-5 files (LF/CRLF, with/without final newline, contiguous or arbitrarily distributed) against "
-             "the concatenation. Accept/reject must agree.",
+             "the concatenation. Accept/reject must agree. "
+             "The CLI leg duplicates a BUY line in 40% of its ledgers so that textually identical lines land in different files.",
         note="Open finding F16 (per-sell-line legs when same-day SELL lines are not consecutive; pinned by "
              "tests/plain/SyntheticComplex.txt) is matched by its exact signature: merged legs, costs, totals and "
              "holdings must still agree. Split-and-trade-on-one-date ledgers are not generated (convention not fixed "
@@ -98,7 +99,8 @@ CHECKS = {
                   "mixed-case tickers through the DSL and JSON input paths",
         text="Ledgers over 2-6 securities colliding on dates are compared with the reports of each security's "
              "transactions alone: disposals, legs and holdings bit-identical, year totals additive, acceptance = "
-             "conjunction. Mixed-case ticker spellings through parse_file and the JSON deserialiser must give the same report.",
+             "conjunction. Mixed-case ticker spellings through parse_file and the JSON deserialiser must give the same report. "
+             "The JSON case-variant leg also uses tickers with cased letters outside ASCII.",
         note="F16 regrouping (another security's line between two same-day SELL lines) is matched as the known finding; "
              "merged legs must still agree.",
         ref="DESIGN.md §3 C09"),
@@ -129,7 +131,8 @@ CHECKS = {
         text="Accepted prefix ledgers are extended by well-formed continuations starting 31 (boundary), 32, 35, 60 or "
              "400 days after the prefix's last date (some failing by themselves); every prefix disposal must reappear "
              "bit-identical, every tax year closed before the suffix must keep its whole summary, and a rejection must "
-             "name a date in the suffix period.",
+             "name a date in the suffix period. "
+             "Year-restricted views under the embedded exemption table: a tax year closed before the continuation starts must still be produced, unchanged, for the grown ledger, also when the continuation reaches years the table does not cover.",
         note="Continuations contain no CAPRETURN/ACCUMULATION (excluded by the property).",
         ref="DESIGN.md §3 C12"),
     "C08": dict(
@@ -141,7 +144,8 @@ CHECKS = {
              "literal GBP twins; absent rates (gap month 2015-12, before/after the table, code outside the table, no "
              "table) must yield MissingFxRate naming the currency and the transaction's own month; generated rate folders "
              "(override, add month, mislabelled, non-positive, empty) are loaded at the library boundary and through "
-             "--fx-folder and every lookup around an override is checked for locality; the whole bundled table is compared key by key.",
+             "--fx-folder and every lookup around an override is checked for locality; the whole bundled table is compared key by key. "
+             "A CLI-vs-library differential leg places the foreign amounts on any subset of line kinds (only trades, only dividends / accumulations / capital returns, only fees, one line).",
         note="Where the bundled data lists one currency twice in a month with different rates (XCD 2015-04) either rate is "
              "accepted. Two folder files for one month are not generated (precedence not in the property). MCP get_fx_rate "
              "is compared with the table by C20.",
@@ -155,7 +159,8 @@ CHECKS = {
              "one-token corruptions (garbage keyword/number/date/currency, calendar-invalid date, signed or doubly-dotted "
              "number, deleted required token, duplicated clause, stray token) whose error must point at the corrupted line; "
              "sample through `cgt-tool parse`. "
-             "Through the real `cgt-tool parse` the same text is also cut at line boundaries into several input files whose non-final parts may lack the final newline.",
+             "Through the real `cgt-tool parse` the same text is also cut at line boundaries into several input files whose non-final parts may lack the final newline. "
+             "An MCP leg sends the same variants through parse_transactions; generated comments carry backslash sequences that look like escapes.",
         note="Grammar leniencies (keyword glued to ticker, leading whitespace) are not treated as corruptions.",
         ref="DESIGN.md §3 C13, §4 F7"),
     "C14": dict(
@@ -199,7 +204,8 @@ CHECKS = {
              "3k validator cases built as structs (negative/zero fields reachable); ~120 real cgt-tool runs over 16 fault "
              "classes (missing/directory/non-UTF-8 input, unwritable or pre-existing --output, pre-existing default PDF path, "
              "bad rate folder, absurd --year, /dev/full stdout): a failing run must exit non-zero without a panic, print "
-             "nothing on stdout and leave every file untouched.",
+             "nothing on stdout and leave every file untouched. "
+             "Degenerate days (several zero / tiny lines of one security on one date) and RSU rows at the calendar extremes are directed classes; a library call or CLI run that stays silent for the watchdog three times in a row is reported as non-termination (bounded progress).",
         note="Open finding F8 (rust_decimal overflow panic in the extreme regime) is matched on regime+library+kind; any other "
              "panic is reported. Hang detection is a wall-clock watchdog whose firing is inconclusive. MCP no-answer cases are C20's.",
         ref="DESIGN.md §3 C15, §4 F8/F14/F18"),
@@ -211,7 +217,8 @@ CHECKS = {
              "permutations of every drain - report, text and JSON must be identical and canonically ordered (years ascending, "
              "disposals by date then ticker, holdings by ticker, text-report transactions by date then ticker); report "
              "plain/json/pdf, parse and convert schwab are run 16 times each in fresh processes and compared byte for byte. "
-             "Input lines arrive shuffled, chronological with arbitrary order inside a date, reverse-chronological or grouped by security; six fresh `cgt-tool mcp` servers are given the same tool calls (incl. the error answers that enumerate tickers) and must answer identically.",
+             "Input lines arrive shuffled, chronological with arbitrary order inside a date, reverse-chronological or grouped by security; six fresh `cgt-tool mcp` servers are given the same tool calls (incl. the error answers that enumerate tickers) and must answer identically. "
+             "Half of the CLI process inputs are given as three files.",
         note="Only the converter's '# Converted:' timestamp is masked; PDF comparisons that straddle midnight are skipped.",
         ref="DESIGN.md §3 C16"),
     "C17": dict(
@@ -221,7 +228,8 @@ CHECKS = {
              "pounds, 6-9-decimal quantities and foreign-currency echoes: each monetary figure must be the computed value in "
              "full or rounded to pence half away from zero (GBP shape with thousands separators for pence figures), quantities "
              "exact (PDF: six decimals), dates DD/MM/YYYY, years YYYY/YY, and all three front ends must list the same years, "
-             "disposals, legs, holdings and transactions. ~370k figures per quick run.",
+             "disposals, legs, holdings and transactions. ~370k figures per quick run. "
+             "The real `cgt-tool report` (plain and JSON, with and without --year, embedded table or all-years config) must print exactly what the library's formatters produce for the same ledger.",
         note="A figure recomputed here in exact rationals may differ by ~1e-27 from the tool's own Decimal sum; within 1e-13 of "
              "a midpoint but not on it either neighbouring penny is accepted. MCP figures are checked by C20. "
              "The PDF reader recognises the current template by its section titles, labels and per-table header rows; a document or table it does not recognise is not read and makes the run inconclusive (exit 2), never a violation.",
@@ -236,7 +244,8 @@ CHECKS = {
              "shuffled reference session and of fresh processes; calculate_report is compared with the library/CLI JSON "
              "report, explain_matching with the full-precision report for every explained disposal, get_fx_rate with the "
              "rate table, parse/convert outputs are re-read. "
-             "Sessions under the embedded exemption table (no config file) with ledgers reaching outside it compare pipelined answers with a second server given the same requests one at a time, and with the library under the same table.",
+             "Sessions under the embedded exemption table (no config file) with ledgers reaching outside it compare pipelined answers with a second server given the same requests one at a time, and with the library under the same table. "
+             "Requests include dividends-only ledgers, and pool ledgers carry capital events after 30-day shapes.",
         note="Open findings F12 (rmcp drops unknown methods / non-object arguments and exits on a non-JSON line) and F8 (overflow "
              "panic leaves one request unanswered) live in a labelled envelope class so the main sessions stay clean.",
         ref="DESIGN.md §3 C20, §4 F8/F12/F13"),
